@@ -17,6 +17,11 @@ RULES = {
     "R12.6": "a failed payout is undone exactly (shared with C11 R11.4 / R11.6): the receive path stores REPLY_ARGS = the (channel, denom, "
              "amount) it reduced, the payout replies on error with the id on which `reply` adds exactly those back to `outstanding`, "
              "and no other sub-message uses that id - so the error acknowledgement produced by `reply` also leaves the books as before",
+    "R12.7": "upgrade path: every successful migrate either runs the v2->v3 balance reconciliation (migrations::v2::update_balances) "
+             "or has decided, on the stored version, that it is not needed - in particular the v1->v2 conversion does not skip it; "
+             "what the reconciliation computes from live balances is not decided",
+    "R12.8": "the refund of our own failed / timed-out packet reduces the balance of the channel the packet was sent on "
+             "(packet.src.channel_id), for the packet's denom and amount (shared with C11 R11.1)",
     "R12.5": "accounting step: per entry point the channel-state deltas are: transfer +A outstanding and +A total_sent; "
              "receive -A outstanding; error-ack / timeout -A outstanding; reply-undo +A outstanding only; success-ack none",
 }
@@ -135,9 +140,14 @@ def run(ctx):
     C11.run(sub)
     for k in sub.order:
         o = sub.obs[k]
-        if o.rule in ("R11.4", "R11.6") and not o.key.startswith(("anchor", "floor")):
-            ctx.ob("R12.6", o.key, True if o.status == "discharged" else (None if o.status == "undecided" else False),
-                   detail="; ".join(o.details), sites=o.sites, sample=o.sample)
+        if o.key.startswith(("anchor", "floor")):
+            continue
+        st_ = True if o.status == "discharged" else (None if o.status == "undecided" else False)
+        if o.rule in ("R11.4", "R11.6"):
+            ctx.ob("R12.6", o.key, st_, detail="; ".join(o.details), sites=o.sites, sample=o.sample)
+        elif o.rule == "R11.1" and o.key.startswith(("ibc_packet_ack", "ibc_packet_timeout")):
+            ctx.ob("R12.8", o.key, st_, detail="; ".join(o.details), sites=o.sites, sample=o.sample)
+    check_migrate_gate(ctx, eps)
 
 
 def check_packets(ctx, ex, it):
@@ -212,3 +222,41 @@ def check_packets(ctx, ex, it):
                                         prob = "packet emitted without the guard amount <= u64::MAX (Ics20Packet::validate)"
             ctx.ob("R12.4", key, prob is None, detail=prob, sites=[e.site for e in w], sample={"packet": show(ents[0][1])[:300] if ents else None})
     ctx.floor("R12.4", "transfer Ok-paths", n, 2)
+
+
+UPDATE_BALANCES = "cw20_ics20::migrations::v2::update_balances"
+
+
+def check_migrate_gate(ctx, eps):
+    if "migrate" not in eps or UPDATE_BALANCES not in ctx.facts.bodies:
+        ctx.ob("R12.7", "anchor:migrate / v2::update_balances", False, trivial=True, detail="migrate or migrations::v2::update_balances not found")
+        return
+    paths = [p for p in ctx.summarise(eps["migrate"], opaque={UPDATE_BALANCES}) if not p.is_err()]
+    def called(p):
+        for i, c in enumerate(p.conds):
+            if c[0][0] == "call" and c[0][1] == UPDATE_BALANCES and c[1] == "Ok":
+                return i
+        return None
+    gates = set()
+    for p in paths:
+        i = called(p)
+        if i is not None:
+            for c in reversed(p.conds[:i]):
+                if c[0][0] == "cmp" and c[1] is True:
+                    gates.add(c[0])
+                    break
+    ctx.ob("R12.7", "floor:reconciliation gate found", len(gates) >= 1, trivial=True,
+           detail="no migrate path calls v2::update_balances under a version decision")
+    n = 0
+    for p in paths:
+        if called(p) is not None:
+            n += 1
+            continue
+        decided = any(c[0] in gates and c[1] is False for c in p.conds)
+        conv = [e for e in p.effects if e.kind == "prim" and e.name == "Admin::set"]
+        ctx.ob("R12.7", "migrate/path without reconciliation%s" % (" (after the v1->v2 conversion)" if conv else ""), decided,
+               sites=[e.site for e in conv],
+               detail="a successful migrate path neither calls v2::update_balances nor decides %s = false: a contract upgraded along "
+                      "this path keeps channel balances that were never reconciled with the sends still in flight"
+                      % [show(g)[:120] for g in gates], sample={"decided_not_needed": decided})
+    ctx.floor("R12.7", "migrate paths that reconcile", n, 1)
